@@ -130,7 +130,7 @@ func (q *c04Facts) nonposK(st *flow.State, k string) bool {
 func c04WeightedChoose(c *core.Ctx, info *c04Info, im *c04Impl, total, weight *types.Var) {
 	f := flow.NewFunc(im.pkg, im.decl)
 	c.Count("functions_analysed", 1)
-	q := c04NewFacts(f, im.list)
+	q := c04NewFacts(f, im.list).withRecvList(im.decl)
 	pm := parentMap(f.Body)
 	isTotal := func(e ast.Expr) bool { return c04SelObj(f.Info, q.resolve(e)) == total }
 	var mentionsTotal func(e ast.Expr, depth int) bool
@@ -220,21 +220,22 @@ func c04WeightedChoose(c *core.Ctx, info *c04Info, im *c04Impl, total, weight *t
 		id, ok := ast.Unparen(e).(*ast.Ident)
 		return ok && c04ObjOf(f.Info, id) == r
 	}
-	var loop *ast.RangeStmt
-	elemWeight := func(e ast.Expr, l *ast.RangeStmt) bool {
+	var loop *c04Loop
+	elemWeight := func(e ast.Expr, l *c04Loop) bool {
 		sel, ok := ast.Unparen(e).(*ast.SelectorExpr)
 		if !ok || c04SelObj(f.Info, sel) != weight || l == nil {
 			return false
 		}
 		return c04IsElem(f, q, sel.X, l)
 	}
-	listLoopOf := func(n ast.Node) *ast.RangeStmt {
+	listLoopOf := func(n ast.Node) *c04Loop {
 		ls := enclosingLoops(f.Body, n)
-		for i := len(ls) - 1; i >= 0; i-- {
-			if rs, ok := ls[i].(*ast.RangeStmt); ok && q.isList(rs.X) {
-				return rs
-			}
-			break // the innermost loop must be the list loop
+		if len(ls) == 0 {
+			return nil
+		}
+		// the innermost loop must be the loop over the receiver's list
+		if l := c04LoopOf(f, ls[len(ls)-1]); l != nil && q.isList(l.x) {
+			return l
 		}
 		return nil
 	}
@@ -259,7 +260,7 @@ func c04WeightedChoose(c *core.Ctx, info *c04Info, im *c04Impl, total, weight *t
 						}
 					}
 				}
-				if ok && (loop == nil || loop == l0) {
+				if ok && (loop == nil || loop.stmt == l0.stmt) {
 					loop = l0
 					subs = append(subs, s)
 				} else if badMod == nil {
@@ -291,7 +292,7 @@ func c04WeightedChoose(c *core.Ctx, info *c04Info, im *c04Impl, total, weight *t
 	}
 	// renderings of `<elem>.Weight` inside the loop (for the test-before-subtract idiom)
 	weightRenders := map[string]bool{}
-	ast.Inspect(loop.Body, func(n ast.Node) bool {
+	ast.Inspect(loop.body, func(n ast.Node) bool {
 		if x, ok := n.(ast.Expr); ok && elemWeight(x, loop) {
 			weightRenders[f.Render(ast.Unparen(x))] = true
 		}
@@ -307,24 +308,22 @@ func c04WeightedChoose(c *core.Ctx, info *c04Info, im *c04Impl, total, weight *t
 	iterations := 0
 	res := analyze(c, f, flow.Config{
 		NoHavoc: true,
+		Inline:  inlineSamePkg(f),
 		OnBlock: func(st *flow.State, b *cfg.Block) {
-			if b.Stmt != loop {
-				return
-			}
-			switch b.Kind {
-			case cfg.KindRangeBody:
+			switch loop.phase(b) {
+			case "body":
 				st.Set("ev:in", flow.True)
 				st.Set("ev:sub", flow.False)
-			case cfg.KindRangeLoop:
+			case "next":
 				if st.Is("ev:in", flow.True) {
 					iterations++
 					if !st.Is("ev:sub", flow.True) && bad == nil {
-						bad = &finding{loop, st, "an iteration of the selection loop can move on to the next server without subtracting the current server's weight from the draw: the draw is compared with a subset of the summed weights, so it can run past the last interval (fall-through) or select by the wrong intervals"}
+						bad = &finding{loop.stmt, st, "an iteration of the selection loop can move on to the next server without subtracting the current server's weight from the draw: the draw is compared with a subset of the summed weights, so it can run past the last interval (fall-through) or select by the wrong intervals"}
 					}
 				}
 				st.Set("ev:in", flow.Unknown)
 				st.Set("ev:sub", flow.Unknown)
-			case cfg.KindRangeDone:
+			case "done":
 				st.Set("ev:after", flow.True)
 				st.Set("ev:in", flow.Unknown)
 				st.Set("ev:sub", flow.Unknown)
@@ -356,7 +355,7 @@ func c04WeightedChoose(c *core.Ctx, info *c04Info, im *c04Impl, total, weight *t
 		}
 		st := ex.State
 		switch {
-		case contains(loop.Body, ex.Return):
+		case contains(loop.body, ex.Return):
 			inLoop++
 			if bad != nil {
 				continue
@@ -393,9 +392,9 @@ func c04WeightedChoose(c *core.Ctx, info *c04Info, im *c04Impl, total, weight *t
 	if bad != nil {
 		c.Violate("R-C04-8", consC, pos(c, bad.at), bad.why, witness(bad.st)...)
 	} else if inLoop == 0 {
-		c.Violate("R-C04-8", consC, pos(c, loop), "the selection loop never returns a server")
+		c.Violate("R-C04-8", consC, pos(c, loop.stmt), "the selection loop never returns a server")
 	} else {
-		c.Discharge("R-C04-8", consC, pos(c, loop), sprintf("%d abstract iterations all subtract the current weight once; %d in-loop returns of the current element under the strict test; %d fall-through returns (unreachable, not judged)", iterations, inLoop, after))
+		c.Discharge("R-C04-8", consC, pos(c, loop.stmt), sprintf("%d abstract iterations all subtract the current weight once; %d in-loop returns of the current element under the strict test; %d fall-through returns (unreachable, not judged)", iterations, inLoop, after))
 	}
 	consD := im.cons + "|weight-blind choice only when no weight is positive"
 	if badD != nil {
@@ -405,25 +404,133 @@ func c04WeightedChoose(c *core.Ctx, info *c04Info, im *c04Impl, total, weight *t
 	}
 }
 
-// c04IsElem: e denotes the current element of range loop l (its value variable, or list[key]).
-func c04IsElem(f *flow.Func, q *c04Facts, e ast.Expr, l *ast.RangeStmt) bool {
+// c04Loop is a loop over all elements of a slice: `for i, v := range X`, `for i := range X`,
+// or `for i := 0; i < len(X); i++` with i not modified in the body.
+type c04Loop struct {
+	stmt     ast.Stmt
+	body     *ast.BlockStmt
+	x        ast.Expr
+	key, val types.Object
+}
+
+func c04LoopOf(f *flow.Func, st ast.Stmt) *c04Loop {
+	switch l := st.(type) {
+	case *ast.RangeStmt:
+		out := &c04Loop{stmt: l, body: l.Body, x: l.X}
+		if id, ok := l.Key.(*ast.Ident); ok && id.Name != "_" {
+			out.key = c04ObjOf(f.Info, id)
+		}
+		if id, ok := l.Value.(*ast.Ident); ok && id.Name != "_" {
+			out.val = c04ObjOf(f.Info, id)
+		}
+		return out
+	case *ast.ForStmt:
+		init, ok := l.Init.(*ast.AssignStmt)
+		if !ok || len(init.Lhs) != 1 || len(init.Rhs) != 1 {
+			return nil
+		}
+		id, ok := init.Lhs[0].(*ast.Ident)
+		if v := f.Info.Types[init.Rhs[0]].Value; !ok || v == nil || constant.Sign(v) != 0 {
+			return nil
+		}
+		i := c04ObjOf(f.Info, id)
+		isI := func(e ast.Expr) bool {
+			x, ok := ast.Unparen(e).(*ast.Ident)
+			return ok && c04ObjOf(f.Info, x) == i
+		}
+		lenArg := func(e ast.Expr) ast.Expr {
+			call, ok := ast.Unparen(e).(*ast.CallExpr)
+			if !ok || len(call.Args) != 1 {
+				return nil
+			}
+			if b, ok := f.Callee(call).(*types.Builtin); ok && b.Name() == "len" {
+				return call.Args[0]
+			}
+			return nil
+		}
+		cond, ok := ast.Unparen(l.Cond).(*ast.BinaryExpr)
+		if !ok {
+			return nil
+		}
+		var x ast.Expr
+		switch {
+		case cond.Op == token.LSS && isI(cond.X):
+			x = lenArg(cond.Y)
+		case cond.Op == token.GTR && isI(cond.Y):
+			x = lenArg(cond.X)
+		case cond.Op == token.NEQ && isI(cond.X):
+			x = lenArg(cond.Y)
+		}
+		post, ok := l.Post.(*ast.IncDecStmt)
+		if x == nil || !ok || post.Tok != token.INC || !isI(post.X) {
+			return nil
+		}
+		modified := false
+		ast.Inspect(l.Body, func(n ast.Node) bool {
+			switch s := n.(type) {
+			case *ast.AssignStmt:
+				for _, lh := range s.Lhs {
+					if isI(lh) {
+						modified = true
+					}
+				}
+			case *ast.IncDecStmt:
+				if isI(s.X) {
+					modified = true
+				}
+			case *ast.UnaryExpr:
+				if s.Op == token.AND && isI(s.X) {
+					modified = true
+				}
+			}
+			return true
+		})
+		if modified {
+			return nil
+		}
+		return &c04Loop{stmt: l, body: l.Body, x: x, key: i}
+	}
+	return nil
+}
+
+// iteration phases of a c04Loop in the engine's block kinds
+func (l *c04Loop) phase(b *cfg.Block) string {
+	if b.Stmt != ast.Node(l.stmt) {
+		return ""
+	}
+	switch b.Kind {
+	case cfg.KindRangeBody, cfg.KindForBody:
+		return "body"
+	case cfg.KindRangeLoop, cfg.KindForPost:
+		return "next"
+	case cfg.KindRangeDone, cfg.KindForDone:
+		return "done"
+	}
+	return ""
+}
+
+// c04IsElem: e denotes the current element of loop l (its value variable, list[key], or a
+// local defined once in the body from one of those).
+func c04IsElem(f *flow.Func, q *c04Facts, e ast.Expr, l *c04Loop) bool {
+	if l == nil {
+		return false
+	}
 	e = ast.Unparen(e)
 	switch x := e.(type) {
 	case *ast.Ident:
 		o := c04ObjOf(f.Info, x)
-		if v, ok := l.Value.(*ast.Ident); ok && v.Name != "_" && o == c04ObjOf(f.Info, v) {
+		if l.val != nil && o == l.val {
 			return true
 		}
-		// s := list[i] defined once inside the loop body
-		if d, ok := q.defs[o]; ok && !q.unsafe[o] && contains(l.Body, d) {
+		if d, ok := q.defs[o]; ok && !q.unsafe[o] && contains(l.body, d) {
 			if _, isIdent := ast.Unparen(d).(*ast.Ident); !isIdent {
 				return c04IsElem(f, q, d, l)
 			}
 		}
 	case *ast.IndexExpr:
-		if k, ok := l.Key.(*ast.Ident); ok && k.Name != "_" {
-			if id, ok := ast.Unparen(x.Index).(*ast.Ident); ok && c04ObjOf(f.Info, id) == c04ObjOf(f.Info, k) {
-				return q.canon(x.X, 0) == q.canon(l.X, 0)
+		if l.key != nil {
+			if id, ok := ast.Unparen(x.Index).(*ast.Ident); ok && c04ObjOf(f.Info, id) == l.key {
+				return q.canon(x.X, 0) == q.canon(l.x, 0)
 			}
 		}
 	}
@@ -466,47 +573,167 @@ func c04WeightedSum(c *core.Ctx, info *c04Info, im *c04Impl, total, weight *type
 	if !c.RequireCount("R-C04-8", "stores to the total-weight field", len(stores), 1) {
 		return
 	}
-	if len(stores) != 1 {
-		s := stores[1]
-		c.Violate("R-C04-8", cons, pos(c, s.stmt), sprintf("the total weight is stored at %d places; it must be accumulated once, by the constructor's loop over the list", len(stores)))
-		return
-	}
+	// the accumulator: the field itself (`x.total += w`), or a local that is stored into the
+	// field once (`total: sum` / `x.total = sum`) after having been accumulated
 	s := stores[0]
 	f := flow.NewFunc(s.pkg, s.fd)
 	q := c04NewFacts(f, im.list)
 	fail := func(at ast.Node, why string) {
 		c.Violate("R-C04-8", cons, pos(c, at), why+": the draw bound no longer equals the sum of the weights the selection loop subtracts, so a draw can run past the last server (fall-through) or servers are selected by the wrong intervals")
 	}
-	as, ok := s.stmt.(*ast.AssignStmt)
-	if !ok || len(as.Lhs) != 1 || len(as.Rhs) != 1 {
-		fail(s.stmt, "the total weight is not accumulated by `total += server.Weight`")
-		return
+	isAcc := func(e ast.Expr) bool { return c04SelObj(f.Info, e) == types.Object(total) }
+	var local types.Object
+	var as *ast.AssignStmt
+	accForm := func(x *ast.AssignStmt) ast.Expr { // the addend of an accumulating assignment
+		if len(x.Lhs) != 1 || len(x.Rhs) != 1 || !isAcc(x.Lhs[0]) {
+			return nil
+		}
+		switch x.Tok {
+		case token.ADD_ASSIGN:
+			return x.Rhs[0]
+		case token.ASSIGN:
+			if b, isB := ast.Unparen(x.Rhs[0]).(*ast.BinaryExpr); isB && b.Op == token.ADD {
+				switch {
+				case isAcc(b.X):
+					return b.Y
+				case isAcc(b.Y):
+					return b.X
+				}
+			}
+		}
+		return nil
 	}
-	var w ast.Expr
-	switch as.Tok {
-	case token.ADD_ASSIGN:
-		w = as.Rhs[0]
-	case token.ASSIGN:
-		if b, isB := ast.Unparen(as.Rhs[0]).(*ast.BinaryExpr); isB && b.Op == token.ADD {
-			switch {
-			case c04SelObj(f.Info, b.X) == total:
-				w = b.Y
-			case c04SelObj(f.Info, b.Y) == total:
-				w = b.X
+	var finalStore ast.Node
+	if len(stores) == 1 {
+		var v ast.Expr
+		switch x := s.stmt.(type) {
+		case *ast.AssignStmt:
+			if accForm(x) != nil {
+				as = x
+			} else if len(x.Lhs) == 1 && len(x.Rhs) == 1 && x.Tok == token.ASSIGN {
+				v = x.Rhs[0]
+			}
+		case *ast.KeyValueExpr:
+			v = x.Value
+		}
+		if id, ok := ast.Unparen(rhsOrNil(v)).(*ast.Ident); ok && as == nil {
+			if lv, isVar := c04ObjOf(f.Info, id).(*types.Var); isVar && !lv.IsField() && lv.Parent() != lv.Pkg().Scope() {
+				local, finalStore = lv, s.stmt
 			}
 		}
 	}
-	ls := enclosingLoops(s.fd.Body, as)
-	var loop *ast.RangeStmt
-	if len(ls) == 1 {
-		loop, _ = ls[0].(*ast.RangeStmt)
-	}
-	if len(ls) == 0 {
-		c.Undecide("R-C04-8", cons, pos(c, as), "the total weight is not accumulated lexically inside a range loop (helper/closure or another summation shape): the rule has to be adapted, this is not a violation")
+	if local != nil {
+		isAcc = func(e ast.Expr) bool {
+			id, ok := ast.Unparen(e).(*ast.Ident)
+			return ok && c04ObjOf(f.Info, id) == local
+		}
+		inits, accs, others := 0, 0, 0
+		ast.Inspect(s.fd.Body, func(n ast.Node) bool {
+			switch x := n.(type) {
+			case *ast.AssignStmt:
+				for i, l := range x.Lhs {
+					if !isAcc(l) {
+						continue
+					}
+					switch {
+					case accForm(x) != nil:
+						accs++
+						as = x
+					case len(x.Lhs) == len(x.Rhs) && f.Info.Types[x.Rhs[i]].Value != nil && constant.Sign(f.Info.Types[x.Rhs[i]].Value) == 0:
+						inits++
+					default:
+						others++
+					}
+				}
+			case *ast.ValueSpec:
+				for i, id := range x.Names {
+					if c04ObjOf(f.Info, id) != local {
+						continue
+					}
+					if i < len(x.Values) {
+						if v := f.Info.Types[x.Values[i]].Value; v == nil || constant.Sign(v) != 0 {
+							others++
+							continue
+						}
+					}
+					inits++
+				}
+			case *ast.IncDecStmt:
+				if isAcc(x.X) {
+					others++
+				}
+			case *ast.UnaryExpr:
+				if x.Op == token.AND && isAcc(x.X) {
+					others++
+				}
+			}
+			return true
+		})
+		if inits != 1 || accs != 1 || others != 0 {
+			fail(finalStore, sprintf("the total weight is taken from local `%s`, which is not a zero-initialised sum accumulated by one `+= server.Weight` (%d initialisations, %d accumulations, %d other writes)", local.Name(), inits, accs, others))
+			return
+		}
+	} else if len(stores) != 1 {
+		x := stores[1]
+		c.Violate("R-C04-8", cons, pos(c, x.stmt), sprintf("the total weight is stored at %d places; it must be accumulated once, by the constructor's loop over the list", len(stores)))
 		return
 	}
-	if w == nil || loop == nil {
-		fail(as, "the total weight is not accumulated by `total += server.Weight` inside a single range loop")
+	if as == nil {
+		if len(enclosingLoops(s.fd.Body, s.stmt)) == 0 {
+			c.Undecide("R-C04-8", cons, pos(c, s.stmt), "the total weight is neither accumulated in a loop nor taken from a local sum (helper/closure or another summation shape): the rule has to be adapted, this is not a violation")
+			return
+		}
+		fail(s.stmt, "the total weight is not accumulated by `total += server.Weight`")
+		return
+	}
+	w := accForm(as)
+	var accStmt ast.Stmt = as
+	ls := enclosingLoops(s.fd.Body, as)
+	if len(ls) == 0 {
+		// `add := func(w int) { lb.total += w }` … `add(server.Weight)` in the loop: the call is
+		// the accumulating statement, its argument the addend
+		pm := parentMap(s.fd.Body)
+		var lit *ast.FuncLit
+		for p := pm[as]; p != nil; p = pm[p] {
+			if l, ok := p.(*ast.FuncLit); ok {
+				lit = l
+				break
+			}
+		}
+		if lit != nil && lit.Type.Params != nil && len(lit.Type.Params.List) == 1 && len(lit.Type.Params.List[0].Names) == 1 && len(lit.Body.List) == 1 {
+			param := f.Info.Defs[lit.Type.Params.List[0].Names[0]]
+			if id, ok := ast.Unparen(w).(*ast.Ident); ok && c04ObjOf(f.Info, id) == param {
+				if v := c04LitVar(s.pkg, s.fd, lit); v != nil {
+					var callStmts []*ast.ExprStmt
+					ast.Inspect(s.fd.Body, func(n ast.Node) bool {
+						if es, ok := n.(*ast.ExprStmt); ok {
+							if call, ok := es.X.(*ast.CallExpr); ok && len(call.Args) == 1 {
+								if cid, ok := ast.Unparen(call.Fun).(*ast.Ident); ok && f.Info.Uses[cid] == types.Object(v) {
+									callStmts = append(callStmts, es)
+								}
+							}
+						}
+						return true
+					})
+					if len(callStmts) == 1 {
+						accStmt = callStmts[0]
+						w = callStmts[0].X.(*ast.CallExpr).Args[0]
+						ls = enclosingLoops(s.fd.Body, accStmt)
+					}
+				}
+			}
+		}
+	}
+	if len(ls) == 0 {
+		c.Undecide("R-C04-8", cons, pos(c, as), "the total weight is not accumulated lexically inside a loop (helper/closure or another summation shape): the rule has to be adapted, this is not a violation")
+		return
+	}
+	var loop *c04Loop
+	if len(ls) == 1 {
+		loop = c04LoopOf(f, ls[0])
+	}
+	if loop == nil {
+		fail(as, "the total weight is not accumulated inside a single loop over all servers of the list")
 		return
 	}
 	wsel, ok := ast.Unparen(w).(*ast.SelectorExpr)
@@ -515,7 +742,7 @@ func c04WeightedSum(c *core.Ctx, info *c04Info, im *c04Impl, total, weight *type
 		return
 	}
 	// the loop ranges over the very slice that becomes the list
-	ranged := ast.Unparen(loop.X)
+	ranged := ast.Unparen(loop.x)
 	sameList := q.isList(ranged)
 	if id, isID := ranged.(*ast.Ident); isID && !sameList {
 		obj := c04ObjOf(f.Info, id)
@@ -543,25 +770,23 @@ func c04WeightedSum(c *core.Ctx, info *c04Info, im *c04Impl, total, weight *type
 		}
 	}
 	if !sameList {
-		fail(loop, sprintf("the summing loop ranges over `%s`, which is not the slice installed as the balancer's list", types.ExprString(loop.X)))
+		fail(loop.stmt, sprintf("the summing loop ranges over `%s`, which is not the slice installed as the balancer's list", types.ExprString(loop.x)))
 		return
 	}
-	// unconditional: the statement is a direct child of the loop body, the loop a direct child of
-	// the function body, and nothing skips an iteration
 	direct := false
-	for _, st := range loop.Body.List {
-		if st == ast.Stmt(as) {
+	for _, st := range loop.body.List {
+		if st == accStmt {
 			direct = true
 		}
 	}
 	top := false
 	for _, st := range s.fd.Body.List {
-		if st == ast.Stmt(loop) {
+		if st == loop.stmt {
 			top = true
 		}
 	}
-	skips := len(breaksOut(f, loop, labelOf(s.fd.Body, loop)))
-	ast.Inspect(loop.Body, func(n ast.Node) bool {
+	skips := len(breaksOut(f, loop.stmt, labelOf(s.fd.Body, loop.stmt)))
+	ast.Inspect(loop.body, func(n ast.Node) bool {
 		if _, ok := n.(*ast.FuncLit); ok {
 			return false
 		}
@@ -570,12 +795,24 @@ func c04WeightedSum(c *core.Ctx, info *c04Info, im *c04Impl, total, weight *type
 		}
 		return true
 	})
+	// a local sum must reach the field unconditionally, after the loop
+	storedOK := true
+	if local != nil {
+		storedOK = false
+		for _, st := range s.fd.Body.List {
+			if contains(st, finalStore) && st.Pos() > loop.stmt.End() {
+				storedOK = true
+			}
+		}
+	}
 	switch {
 	case !direct || skips > 0:
-		fail(loop, "some servers of the list can be left out of the sum (conditional accumulation, continue/break/return in the summing loop)")
+		fail(loop.stmt, "some servers of the list can be left out of the sum (conditional accumulation, continue/break/return in the summing loop)")
 	case !top:
-		fail(loop, "the summing loop is conditional")
+		fail(loop.stmt, "the summing loop is conditional")
+	case !storedOK:
+		fail(finalStore, "the local sum is stored into the total conditionally or before the summing loop")
 	default:
-		c.Discharge("R-C04-8", cons, pos(c, as), sprintf("single store in %s: `total += <elem>.Weight`, unconditional, in a range loop over the slice installed as the list", declName(s.pkg, s.fd)))
+		c.Discharge("R-C04-8", cons, pos(c, as), sprintf("%s: total = sum of <elem>.Weight, unconditional, in a loop over the slice installed as the list", declName(s.pkg, s.fd)))
 	}
 }
